@@ -95,6 +95,11 @@ CHECKS = {
    technique="enumeration of configuration x note-writing path x agent kind (220 scenarios) plus property-based generation of transcripts with planted canaries and secrets; byte search of every blob of every historical notes commit",
    text="Every combination of 10 prompt-storage configurations, 11 note-writing paths and 2 agent kinds (inline transcript / transcript re-fetched from a JSONL file) is executed through the real wrapper with a transcript whose every message carries a unique canary and, for text messages, planted high-entropy tokens; generated combinations with generated transcripts are added. All blobs of all commits of refs/notes/ai are searched: without the notes opt-in no canary may occur; with it the middle of every planted secret must be masked (and canaries do occur - measured).",
    note="'High-entropy' is delegated to the library's own classifier (secrets::is_random), linked in-process: the claim tested is that every path applies the policy to every message, not the detector's statistics. pull --rebase and `git-ai squash-authorship` paths are not included."),
+ "C10": dict(
+   level="exploration", design="DESIGN.md §2 C10",
+   technique="stateful property-based testing (proptest): generated schedules of commit/push/fetch/pull steps by 2-3 clones of one bare remote; ledger-based safety invariant after every step and convergence check after the closing phase",
+   text="Generated schedules of AI/human commits, pushes (branch / --all), fetches and pulls (merge / rebase) by two or three clones, including non-fast-forward notes pushes and first-time syncs in both directions, then the closing phase (everyone pushes, then everyone fetches). A ledger commit -> (author clone, note text) is the oracle: after every step no repository loses an annotated commit, every note still records its own commit and equals the ledger entry; at the end the remote and every clone hold the ledger note for every ledger commit they have.",
+   note="Steps are atomic (one git process at a time). Clones edit disjoint files so that branch merges/rebases never conflict textually."),
 }
 
 NOT_YET = "check not built yet (work in progress; see DESIGN.md section 2 for the plan)"
